@@ -8,6 +8,7 @@ import traceback
 
 from vf.core import Obl, Deductive
 from . import source, models
+from .interp import RaiseEx
 
 
 def _model_text(m, limit=1500):
@@ -34,6 +35,14 @@ def run_task(task):
                              replayed=getattr(r, "replayed", False)))
         meta = dict(paths=eng.paths, solver_ms=eng.solver_ms, wall=time.time() - t0, error=None,
                     used=sorted(models.USED))
+    except RaiseEx as e:
+        # the interpreted code raised where the task's harness did not expect it (typically: the code reads an attribute the
+        # abstract model of an object does not provide, i.e. it left the modelled subset): undecided, never a verdict and
+        # not an engine fault
+        rows = [dict(name=f"{task.label}:supported-subset", status="undecided", ms=0.0,
+                     detail=f"interpreted code raised {e.args[:2]} outside the harness' model", backend="pyvc", model="", count=1,
+                     witness=None, replayed=False)]
+        meta = dict(paths=0, solver_ms=0, wall=time.time() - t0, error=None, used=sorted(models.USED))
     except Exception as e:  # noqa: BLE001  - engine bug: never a verdict about the property
         meta = dict(paths=0, solver_ms=0, wall=time.time() - t0, error=f"{type(e).__name__}: {e}\n{traceback.format_exc()[-1500:]}",
                     used=[])
